@@ -125,7 +125,9 @@ def o3b(h, st):
 # small circuits with symbolic angles
 
 ALPHA = [("H", [0], None), ("RZ", [0], None), ("RX", [1], None), ("CNOT", [1], [0]), ("CRZ", [1], [0]), ("PHASE", [2], None),
-         ("CPHASE", [2], [1]), ("X", [2], None), ("SWAP", [1, 2], None), ("RY", [0], None), ("CRX", [2], [0]), ("XX", [0, 1], None), ("S", [1], None)]
+         ("CPHASE", [2], [1]), ("X", [2], None), ("SWAP", [1, 2], None), ("RY", [0], None), ("CRX", [2], [0]), ("XX", [0, 1], None), ("S", [1], None),
+         # same name and same qubit set as entry 4 / 10 with the roles of control and target exchanged, and a different control set
+         ("CRZ", [0], [1]), ("CRX", [0], [2]), ("CRZ", [1], [0, 2]), ("CPHASE", [1], [2]), ("XX", [1, 0], None), ("SWAP", [2, 1], None)]
 
 
 def small_circuits(tier, maxlen, alpha=None):
@@ -241,16 +243,25 @@ def o6_structures(tier):
             sts.append({"kind": "fixed", "name": name, "sep": sep})
     for g in small_circuits(tier, 3, alpha=[0, 3, 7, 8]):
         sts.append({"kind": "generic", "gates": g})
+    for g in small_circuits(tier, 2, alpha=[4, 13, 15, 10, 14, 6, 16, 8, 18]):
+        if len(g) == 2:
+            sts.append({"kind": "generic", "gates": g})
     return sts
 
 
 @contract("C09", "O6.remove_redundant_gates", targets=[(C, "remove_redundant_gates"), (G, "Gate.__eq__"), (G, "Gate.inverse")], level="S",
-          structures=o6_structures, native_samples=lambda st, rnd, tier: [{"theta": v} for v in (0.3, -2.0, 4.0)])
+          structures=o6_structures, native_samples=lambda st, rnd, tier: [{"theta": v, "p0": 0.12, "p1": 0.23, "p2": 0.31} for v in (0.3, -2.0, 4.0)])
 def o6(h, st):
     """ensures U(result) = lambda U(input) (exact, up to a global phase), result is a sub-sequence of the input, input unchanged"""
     n = 4
     if st["kind"] == "generic":
         gates = build(h, st["gates"])
+        for i, a in enumerate(st["gates"]):
+            if ALPHA[a][0] in PARAM:
+                # generic angles: no two rotations cancel up to the 1e-7 rounding of Gate.__eq__ (exact cancellations are the 'pair' structures)
+                p = h.real(f"p{i}", angle_denom=2)
+                h.assume(p > 0.1 * (i + 1))
+                h.assume(p < 0.1 * (i + 1) + 0.05)
     else:
         name = st["name"]
         nt = 2 if name in TWO_TARGET else 1
@@ -285,7 +296,8 @@ def o6(h, st):
 # O7 merge_rotations --------------------------------------------------------------------------------------------------
 
 @contract("C09", "O7.merge_rotations", targets=[(C, "merge_rotations")], level="S",
-          structures=lambda tier: [{"gates": g} for g in small_circuits(tier, 3, alpha=[1, 2, 3, 4, 5, 6] if tier == "quick" else [0, 1, 2, 3, 4, 5, 6, 9, 10])],
+          structures=lambda tier: [{"gates": g} for g in small_circuits(tier, 3, alpha=[1, 2, 3, 4, 5, 6] if tier == "quick" else [0, 1, 2, 3, 4, 5, 6, 9, 10])] +
+                                  [{"gates": g} for g in small_circuits(tier, 2 if tier == "quick" else 3, alpha=[4, 13, 15, 10, 14, 6, 16, 11, 17]) if len(g) >= 2],
           native_samples=angle_samples)
 def o7(h, st):
     """ensures U(result) == U(input) exactly, for every value of every angle; the input circuit (its gates included) is unchanged"""
@@ -305,7 +317,8 @@ def o7(h, st):
 # O8 simplify ---------------------------------------------------------------------------------------------------------
 
 @contract("C09", "O8.simplify", targets=[(C, "simplify"), (C, "Circuit.copy"), (C, "Circuit.remove_small_rotations"), (C, "Circuit.remove_redundant_gates")],
-          level="S", structures=lambda tier: [{"gates": g} for g in small_circuits(tier, 3, alpha=[1, 3, 4, 7] if tier == "quick" else [0, 1, 3, 4, 5, 7])],
+          level="S", structures=lambda tier: [{"gates": g} for g in small_circuits(tier, 3, alpha=[1, 3, 4, 7] if tier == "quick" else [0, 1, 3, 4, 5, 7])] +
+                                  [{"gates": g} for g in small_circuits(tier, 2, alpha=[4, 13, 10, 14, 15]) if len(g) == 2],
           native_samples=angle_samples, max_paths=300)
 def o8(h, st):
     """ensures U(result) = lambda U(input) for angles away from the thresholds; input circuit unchanged"""
